@@ -84,6 +84,35 @@ def _paragraphs(lines):
     return paras
 
 
+def split_conjuncts(text):
+    """Split an invariant paragraph into its top-level `&&` conjuncts (each becomes a clause of its own, so that a
+    failure names the conjunct that failed).  Not split: clauses with a top-level `==>`, `<==`, `||`, `&&&`, a
+    closure or a quantifier outside parentheses (their precedence is looser than `&&`)."""
+    t = text.strip().rstrip(',')
+    depth = 0
+    parts, last, i, n = [], 0, 0, len(t)
+    while i < n:
+        ch = t[i]
+        if ch in '([{':
+            depth += 1
+        elif ch in ')]}':
+            depth -= 1
+        elif depth == 0:
+            two = t[i:i + 2]
+            three = t[i:i + 3]
+            if three in ('==>', '<==', '&&&', '|||') or two == '||' or ch == '|' or re.match(r'(forall|exists|choose)\b', t[i:]) and (i == 0 or not (t[i - 1].isalnum() or t[i - 1] == '_')):
+                return [text]
+            if two == '&&':
+                parts.append(t[last:i].strip())
+                last = i + 2
+                i += 2
+                continue
+        i += 1
+    parts.append(t[last:].strip())
+    parts = [p_ for p_ in parts if p_]
+    return parts if len(parts) > 1 else [text]
+
+
 def parse_ctr(text, fname='<ctr>'):
     contracts = []
     cur = None
@@ -112,6 +141,8 @@ def parse_ctr(text, fname='<ctr>'):
                 tgt = cur.consts[loop]
             else:
                 tgt = {'requires': cur.requires, 'ensures': cur.ensures}.get(kind) if loop is None else cur.loops[loop][kind]
+            if kind in ('invariant', 'invariant_except_break') and loop is not None and not isinstance(loop, str):
+                paras = [c_ for p_ in paras for c_ in split_conjuncts(p_)]
             for p in paras:
                 t = tags if tags else cur.tags
                 cl_ = Clause(kind if loop is None else kind, t, p.rstrip().rstrip(','), cur.name, len(tgt), loop)
